@@ -126,6 +126,7 @@ def histories(tier):
         H += [("noise", None, "0", "natural") for _ in range(2)]
         H += [("shift+noise", b, "0", "natural") for b in (10, 100, 1000)]
         H += [("shift+noise", 10, "4", "shuffled"), ("shift+noise", 100, "5", "shuffled")]
+        H += [("natural", None, "0", "natural"), ("natural+noise", None, "0", "natural"), ("natural+noise", None, "0", "reversed")]
     else:
         H += [("fresh", None, str(s), "natural") for s in range(1, 11)]
         H += [("fresh", None, "0", "natural"), ("fresh", None, "0", "natural")]
@@ -134,6 +135,8 @@ def histories(tier):
         H += [("noise", None, "0", "natural") for _ in range(8)]
         H += [("shift+noise", b, "0", "natural") for b in (10, 100, 1000) for _ in range(4)]
         H += [("shift+noise", b, str(11 + k), "shuffled") for k, b in enumerate((10, 100, 1000, 10, 100, 1000, 10, 100, 1000, 10))]
+        H += [("natural", None, "0", "natural"), ("natural", None, "0", "reversed"), ("natural", None, "0", "shuffled")]
+        H += [("natural+noise", None, "0", o_) for o_ in ("natural", "natural", "reversed", "shuffled", "shuffled")]
     return H
 
 
@@ -635,8 +638,8 @@ def _brief(counts):
 
 def _check_counts(obs, conf, h):
     """The history was really what the configuration asked for (public accessors)."""
-    if obs.get("build") != "ok":
-        return
+    if obs.get("build") != "ok" or conf["start"] is None:
+        return  # (history kind 'natural': the counters are left as the process made them)
     for cls in COUNTED:
         cs = obs["counts"].get(cls) or []
         if not cs:
